@@ -142,7 +142,13 @@ impl<'tcx> Extract<'tcx> {
                 roots.push(did);
             }
         }
-        let inst = self.instance_graph(&roots);
+        let (inst, ext) = self.instance_graph(&roots);
+        for d in ext {
+            if tcx.is_mir_available(d) {
+                let body = tcx.optimized_mir(d);
+                fns.push(self.body_j(d, body, &[]));
+            }
+        }
         let adts: Vec<J> = std::mem::take(&mut self.adts_seen).into_values().collect();
         J::obj(vec![
             ("crate", s(krate)),
@@ -413,6 +419,52 @@ impl<'tcx> Extract<'tcx> {
             }
             _ => {}
         }
+        // enum constants with scalar payloads (e.g. the promoted `Some(b'\n')` of `x == Some(b'\n')`)
+        {
+            let (is_ref, ety) = match t.kind() {
+                ty::Ref(_, inner, _) => (true, *inner),
+                _ => (false, t),
+            };
+            if let ty::Adt(def, _) = ety.kind() {
+                if def.is_enum() {
+                    if let Ok(val) = c.eval(tcx, env, rustc_span::DUMMY_SP) {
+                        let inner_val = if is_ref {
+                            match val {
+                                ConstValue::Scalar(mir::interpret::Scalar::Ptr(ptr, _)) => {
+                                    let (prov, off) = ptr.prov_and_relative_offset();
+                                    Some(ConstValue::Indirect { alloc_id: prov.alloc_id(), offset: off })
+                                }
+                                _ => None,
+                            }
+                        } else {
+                            Some(val)
+                        };
+                        if let Some(iv) = inner_val {
+                            if let Some(d) = tcx.try_destructure_mir_constant_for_user_output(iv, ety) {
+                                if let Some(vi) = d.variant {
+                                    kv.push(("enum", s(self.path(def.did()))));
+                                    kv.push(("isref", J::Bool(is_ref)));
+                                    kv.push(("variant", s(def.variant(vi).name.to_string())));
+                                    let mut fs = Vec::new();
+                                    for (fv, fty) in d.fields.iter() {
+                                        match (fv.try_to_scalar_int(), fty.kind()) {
+                                            (Some(si), ty::Uint(_)) | (Some(si), ty::Bool) | (Some(si), ty::Char) => {
+                                                fs.push(J::obj(vec![("ty", s(self.ty_str(*fty))), ("int", J::Int(si.to_bits(si.size()) as i128))]));
+                                            }
+                                            (Some(si), ty::Int(_)) => {
+                                                fs.push(J::obj(vec![("ty", s(self.ty_str(*fty))), ("int", J::Int(si.size().sign_extend(si.to_bits(si.size())) as i128))]));
+                                            }
+                                            _ => fs.push(J::Null),
+                                        }
+                                    }
+                                    kv.push(("fields", J::Arr(fs)));
+                                }
+                            }
+                        }
+                    }
+                }
+            }
+        }
         if let MirConst::Unevaluated(u, _) = c {
             kv.push(("uneval", s(self.path(u.def))));
         }
@@ -566,6 +618,7 @@ impl<'tcx> Extract<'tcx> {
             let sig = tcx.fn_sig(did).skip_binder();
             kv.push(("unsafe_fn", J::Bool(sig.safety().is_unsafe())));
             kv.push(("reachable_pub", J::Bool(did.as_local().map(|l| tcx.effective_visibilities(()).is_reachable(l)).unwrap_or(false))));
+            kv.push(("external", J::Bool(!did.is_local())));
         } else {
             kv.push(("parent", s(self.path(tcx.parent(did)))));
         }
@@ -735,7 +788,8 @@ impl<'tcx> Extract<'tcx> {
         format!("{}<{}>", self.path(i.def_id()), a.join(", "))
     }
 
-    fn instance_graph(&mut self, roots: &[DefId]) -> J {
+    fn instance_graph(&mut self, roots: &[DefId]) -> (J, Vec<DefId>) {
+        let mut ext: Vec<DefId> = Vec::new();
         let tcx = self.tcx;
         // nodes are keyed by (root env owner is NOT part of the key: args already carry params)
         let mut nodes: BTreeMap<String, J> = BTreeMap::new();
@@ -745,11 +799,11 @@ impl<'tcx> Extract<'tcx> {
             let args = ty::GenericArgs::identity_for_item(tcx, r);
             let inst = Instance::new_raw(r, args);
             rootkeys.push(s(self.inst_key(&inst)));
-            let mut queue: VecDeque<Instance<'tcx>> = VecDeque::new();
+            let mut queue: VecDeque<(Instance<'tcx>, u32)> = VecDeque::new();
             let mut seen: HashSet<Instance<'tcx>> = HashSet::new();
-            queue.push_back(inst);
+            queue.push_back((inst, 0));
             seen.insert(inst);
-            while let Some(cur) = queue.pop_front() {
+            while let Some((cur, outside)) = queue.pop_front() {
                 let key = self.inst_key(&cur);
                 if nodes.contains_key(&key) {
                     // already expanded from another root with identical args; its callees are identical
@@ -759,6 +813,9 @@ impl<'tcx> Extract<'tcx> {
                 let has_mir = matches!(cur.def, InstanceKind::Item(_)) && tcx.is_mir_available(did)
                     && matches!(tcx.def_kind(did), DefKind::Fn | DefKind::AssocFn | DefKind::Closure);
                 let mut calls = Vec::new();
+                if has_mir && !did.is_local() && !ext.contains(&did) {
+                    ext.push(did);
+                }
                 if has_mir {
                     let body = tcx.optimized_mir(did);
                     for (bb, data) in body.basic_blocks.iter_enumerated() {
@@ -794,15 +851,36 @@ impl<'tcx> Extract<'tcx> {
                                             via = "once_shim";
                                         }
                                     }
+                                    if let InstanceKind::FnPtrShim(..) = ci.def {
+                                        // calling a fn item through FnOnce/FnMut/Fn: resolve the item itself
+                                        let self_ty = cargs.type_at(0);
+                                        if let ty::FnDef(fd, fargs) = self_ty.kind() {
+                                            ckv.push(("fn_item", s(self.path(*fd))));
+                                            if let Ok(Some(fi)) = Instance::try_resolve(tcx, env, *fd, fargs) {
+                                                target = fi;
+                                                via = "fn_item";
+                                            } else {
+                                                ckv.push(("leaf", s(pp!(format!("{}", self_ty)))));
+                                                calls.push(J::obj(ckv));
+                                                continue;
+                                            }
+                                        }
+                                    }
                                     ckv.push(("to", s(self.inst_key(&target))));
                                     ckv.push(("to_def", s(self.path(target.def_id()))));
                                     ckv.push(("via", s(via)));
+                                    let local_crate = self.want_walk(target.def_id());
+                                    // library generics instantiated with a closure / fn item of the
+                                    // workspace (Result::map(|x| ..), Option::map, ...) are followed a
+                                    // few levels so that the closure call inside them is visible
+                                    let hof = !local_crate && outside < 3 && self.mentions_local_fn(target.args);
                                     let walk = matches!(target.def, InstanceKind::Item(_))
                                         && tcx.is_mir_available(target.def_id())
-                                        && self.want_walk(target.def_id());
+                                        && matches!(tcx.def_kind(target.def_id()), DefKind::Fn | DefKind::AssocFn | DefKind::Closure)
+                                        && (local_crate || hof);
                                     ckv.push(("walked", J::Bool(walk)));
                                     if walk && seen.insert(target) {
-                                        queue.push_back(target);
+                                        queue.push_back((target, if local_crate { 0 } else { outside + 1 }));
                                     }
                                 }
                                 _ => {
@@ -828,7 +906,27 @@ impl<'tcx> Extract<'tcx> {
                 );
             }
         }
-        J::obj(vec![("roots", J::Arr(rootkeys)), ("nodes", J::Arr(nodes.into_values().collect()))])
+        (J::obj(vec![("roots", J::Arr(rootkeys)), ("nodes", J::Arr(nodes.into_values().collect()))]), ext)
+    }
+
+    fn mentions_local_fn(&self, args: GenericArgsRef<'tcx>) -> bool {
+        for a in args.iter() {
+            if let Some(t) = a.as_type() {
+                for inner in t.walk() {
+                    if let Some(it) = inner.as_type() {
+                        match it.kind() {
+                            ty::Closure(d, _) | ty::FnDef(d, _) => {
+                                if self.want_walk(*d) {
+                                    return true;
+                                }
+                            }
+                            _ => {}
+                        }
+                    }
+                }
+            }
+        }
+        false
     }
 
     /// walk into the workspace crates only (flussab*), std/num_traits/itoap are leaves
